@@ -78,6 +78,7 @@ pub enum HeadOut {
 pub struct RespOut {
     pub head: HeadOut,
     pub headers: Vec<(String, Vec<u8>)>,
+    pub coding: &'static str,
     pub events: Vec<Ev>,
     pub pulled: usize,
     pub pulls: usize,
@@ -104,7 +105,11 @@ impl RespOut {
                         .join(",")
                 };
                 let ev = self.events.iter().map(|e| e.to_string()).collect::<Vec<_>>().join(",");
-                format!("head={} hdrs={} ev={}", st, h, ev)
+                if self.coding == "plain" {
+                    format!("head={} coding=plain hdrs={} ev={}", st, h, ev)
+                } else {
+                    format!("head={} coding={} hdrs={} ev=~", st, self.coding, h)
+                }
             }
         }
     }
@@ -181,10 +186,16 @@ pub fn install_script(segs: Vec<Seg>) -> Arc<Mutex<Log>> {
 
 pub fn run_resp(case: &RespCase) -> RespOut {
     let log = install_script(case.segs.clone());
+    let max_read = match &case.reads {
+        Reads::Sizes(ns) => ns.iter().copied().max().unwrap_or(0),
+        Reads::Drain(_) => 0,
+    };
+    let mut buf = vec![0u8; max_read];
     let base = crate::alloc::start();
     let mut out = RespOut {
         head: HeadOut::Panic,
         headers: vec![],
+        coding: "plain",
         events: vec![],
         pulled: 0,
         pulls: 0,
@@ -209,14 +220,14 @@ pub fn run_resp(case: &RespCase) -> RespOut {
         }
         Ok(Ok(mut resp)) => {
             out.head = HeadOut::Ok(resp.status().as_u16());
+            out.coding = resp.verif_coding();
             for (n, v) in resp.headers().iter() {
                 out.headers.push((n.as_str().to_string(), v.as_bytes().to_vec()));
             }
             match &case.reads {
                 Reads::Sizes(ns) => {
                     for &n in ns {
-                        let mut buf = vec![0u8; n];
-                        let r = catch_unwind(AssertUnwindSafe(|| resp.read(&mut buf)));
+                        let r = catch_unwind(AssertUnwindSafe(|| resp.read(&mut buf[..n])));
                         out.events.push(match r {
                             Err(_) => Ev::Panic,
                             Ok(Ok(k)) => Ev::Ok(buf[..k].to_vec()),
